@@ -1,6 +1,6 @@
 \* the pinned tree's semantics: limits.nodes is not charged inside a pass (must be rejected: F-C03-6)
 CONSTANTS Catalogs = {1}  Limits = {4}  Daemons = {1}  Batches = {2}  Laters = {0}
-CONSTANTS MaxRounds = 3  MaxClaims = 3  MaxSteps = 5  Resyncs = {FALSE}  EphForms = {2}  StForms = {2}
+CONSTANTS MaxRounds = 3  MaxClaims = 3  MaxSteps = 5  AllowForeign = TRUE  Resyncs = {FALSE}  EphForms = {2}  StForms = {2}
 CONSTANTS W_NoSyncGate = FALSE  W_SubMin = FALSE  W_SubDominating = FALSE  W_StartupBlocks = FALSE  W_CountMarked = FALSE  W_ZeroSkips = FALSE  W_NoZeroFallback = FALSE  W_DaemonTwice = FALSE  W_SyncBeforeBatch = FALSE  C_NodesPerPass = TRUE  C_OverrideBase = FALSE
 SPECIFICATION Spec
 VIEW view
